@@ -32,19 +32,24 @@ def showPacket : Packet → String
   | .data cid pl => s!"{cid.cls}/{cid.id}:{toHex pl}"
   | .crcError => "crc"
 
-/-- `ubx|<ops>`: ops separated by `;` — `P<hex>`, `K`, `R`, `E`, `F<cids>`, `N` (filter None is the start state) -/
+/-- `ubx|<ops>`: ops separated by `;` — `P<hex>` process, `K` packet(), `D` packet() until the sentinel, `R` restart,
+    `E` empty_queue, `F<cids>` set_filters, `S<cid>` set_filter (filter None is the start state).
+    `stable=true`: payloads are values here; that the code's payload objects behave like values is what
+    `Model/HeapParser` + `Proofs/HeapRefines` are about, and what the harness re-reads on the real side. -/
 def runUbx (ops : String) : String :=
   let step (acc : Parser × List String) (op : String) : Parser × List String :=
     let (p, out) := acc
     match op.toList with
     | 'P' :: h => (p.process (parseHex (String.mk h)), out)
     | ['K'] => let (r, p') := p.packet; (p', out ++ [match r with | some x => showPacket x | none => "none"])
+    | ['D'] => ({ p with queue := [] }, out ++ p.queue.map showPacket ++ ["."])
     | ['R'] => (p.restart, out)
     | ['E'] => (p.emptyQueue, out)
     | 'F' :: c => (p.setFilters (parseCids (String.mk c)), out)
+    | 'S' :: c => (p.setFilter (parseCid (String.mk c)), out)
     | _ => (p, out ++ ["bad-op"])
   let (p, out) := (ops.splitOn ";").foldl step ({}, [])
-  String.intercalate " " (out ++ [s!"rx={p.framesRx}", s!"q={p.queue.length}"])
+  String.intercalate " " (out ++ [s!"rx={p.framesRx}", "stable=true"])
 
 def runNmea (ops : String) : String :=
   let step (p : Nmea.P) (op : String) : Nmea.P :=
